@@ -76,7 +76,7 @@ def _sum_strategy(tier):
         return {
             "cfg": cfg,
             "primary": draw(gen.vector_field_spec(ncomp, kinds=fk, max_mag_exp=5)),
-            "velocity": draw(gen.vector_field_spec(dim, kinds=["poly", "noise", "mixed", "checker", "bumps"], max_mag_exp=3)),
+            "velocity": draw(gen.vector_field_spec(dim, kinds=["poly", "noise", "mixed", "checker", "bumps", "stream"], max_mag_exp=3)),
             "forcing": draw(gen.vector_field_spec(dim, kinds=fk, max_mag_exp=5)),
             "free_stream": draw(st.lists(st.one_of(gen.floats(-2.0, 2.0, 32), gen.floats(-2.0, 2.0, 32), st.just(0.0)), min_size=dim, max_size=dim)),
             "dt_frac": draw(gen.floats(0.1, 2.0, 32)),
